@@ -1,0 +1,12 @@
+//go:build !verif
+
+package server
+
+import "context"
+
+// verifNilIfDone returns ch unchanged unless built with the verif tag (see verif_on.go).
+func verifNilIfDone[C any](ctx context.Context, ch C, site string) C { return ch }
+
+// verifPositionOrder returns nil unless built with the verif tag: the checkpoint updates of a batch are then
+// written in map iteration order.
+func verifPositionOrder(m map[string]*UpdatePositionInfo) []string { return nil }
